@@ -12,9 +12,18 @@ S3  the property itself on the real crate (harness/src/bin/c05.rs):
             evaluated by the extracted model must equal the observed post state.
     mode B  k-th backend call inside the transaction fails: commit is never Ok, after drop + reopen the
             contents and persistent savepoints are the pre-transaction ones, own_checkb holds, a new commit works.
+    mode C  (harness/src/bin/c05c.rs) LOGICAL failures by corrupted reads: a storage backend serves damaged bytes
+            for exactly one read (selected bytes of every page an operation reads) while armed; the operation
+            fails with Err(Corrupted) or a decoder panic; the transaction is committed anyway: either the commit
+            is refused or the committed state equals the state in which the failed operation did not happen
+            (contents, persistent savepoints stored / in the tracker, reference counts, restorability,
+            own_checkb), in the session and after a reopen; sibling run: abort.  Judged only when everything
+            the transaction holds after the failed call is byte-identical to what it held before or holds
+            after the fault-free call (no damaged byte absorbed: garbage-in-garbage-out is C12's subject).
 S2  every observed transition (incl. the abort from the half-applied state) equals Own.v's `step`
     (ocaml/c06_driver.ml); observed poisoned / latched flags and commit results equal the extracted
-    `flags_after` / `commit_result` of Poison.v (ocaml/c05_driver.ml).
+    `flags_after` / `commit_result` of Poison.v, and for calls failed by a corrupted read the observed
+    (unreported part staged?, poisoned?) passes the extracted `corrupt_outcome_ok` (ocaml/c05_driver.ml).
 """
 import json
 import os
@@ -26,8 +35,8 @@ from props import own_common
 # expected to hold while the transaction holds half-applied state (that is what poisoning is for)
 HALF_OK = ("O1-working", "O2/O3-pin", "O2-durable-data-covered", "O2-durable-system-covered", "latest-in-working")
 
-QUICK = {"A": (500, 24), "B": (40, 12)}
-THOROUGH = {"A": (6000, 30), "B": (100, 0)}
+QUICK = {"A": (500, 24), "B": (40, 12), "C": (1, 3)}
+THOROUGH = {"A": (6000, 30), "B": (100, 0), "C": (3, 10)}
 
 
 def _filter_half(s3fail):
@@ -260,21 +269,116 @@ def _report_b(ctx, nb, samples, out):
                        "failing_conjuncts": what, "api_calls": _body_log(out["logs"], body) if body is not None else []})
 
 
+def _mode_c(ctx, nimg, variants, extra=()):
+    """corrupted reads (harness c05c): S3 lines, own_checkb on the observed states, flags against the model"""
+    out = {"ok": True, "detail": None, "head": "", "viol": [], "s3fail": [], "flags_bad": [], "runs": 0, "failed": 0,
+           "judged": 0, "distinct": 0, "aborts": 0, "states": 0, "blocks": 0, "ops": {}, "runlines": {}, "logs": [], "samples": []}
+    rc, head = ctx.harness("c05c", ["run", nimg, variants] + list(extra))
+    if rc is None or rc != 0:
+        out["ok"], out["detail"] = False, "harness c05c failed rc=%s: %s" % (rc, (head or "")[-1500:])
+        return out
+    out["head"] = head or ""
+    m = re.search(r"corrupt: images=\d+ runs=(\d+) failed_calls=(\d+) judged=(\d+) distinct_failure_situations=(\d+) process_aborts=(\d+)", head)
+    if not m:
+        out["ok"], out["detail"] = False, "harness c05c: no summary line: %s" % head[-500:]
+        return out
+    out["runs"], out["failed"], out["judged"], out["distinct"], out["aborts"] = (int(x) for x in m.groups())
+    mo = re.search(r"corrupt_ops: (.*)", head)
+    out["ops"] = dict((k, int(v)) for k, v in (kv.split("=") for kv in mo.group(1).split())) if mo else {}
+    for line in open(os.path.join(ctx.workdir, "corrupt_runs.txt")):
+        p = line.split()
+        if len(p) > 2 and p[0] == "F":
+            out["runlines"][p[1]] = line.rstrip("\n")
+            if "res=ok" not in line and len(out["samples"]) < 6:
+                out["samples"].append(line.rstrip("\n")[:400])
+    out["logs"] = [l.rstrip("\n")[:3000] for l in open(os.path.join(ctx.workdir, "corrupt_logs.txt"))]
+    rc2, err = ctx.driver("c06", "corrupt_trace.txt", "corrupt_verdict.txt")
+    if rc2 != 0:
+        out["ok"], out["detail"] = False, "model driver failed on corrupt_trace rc=%s: %s" % (rc2, err)
+        return out
+    for line in open(os.path.join(ctx.workdir, "corrupt_verdict.txt")):
+        p = line.split()
+        if len(p) == 3:
+            out["states"] += 1
+            if p[1][3:] != "ok":
+                out["s3fail"].append((p[0], p[1][3:]))
+    rows, err = _cases_verdict(ctx, "corrupt_cases.txt", "corrupt_cases_verdict.txt")
+    if rows is None:
+        out["ok"], out["detail"] = False, err
+        return out
+    out["blocks"] = len(rows)
+    for label, s3, flags, end in rows:
+        if flags != "ok" or end != "ok":
+            out["flags_bad"].append((label, "FLAGS=%s END=%s" % (flags, end)))
+    v = open(os.path.join(ctx.workdir, "corrupt_viol.txt")).read().strip()
+    out["viol"] = [l for l in v.split("\n") if l]
+    return out
+
+
+def _report_c(ctx, nimg, variants, out):
+    """S3 failures of the corrupted-read family.  Keys: c05-corrupt-half-applied-committed:<Op>:<class> when the commit
+    after the failed call returned Ok, c05-corrupt-abandoned-state-differs:<Op>:<class> when it was refused / aborted
+    (<class> = after-error | after-internal-panic)"""
+    def where(tag):
+        m = re.match(r"i(\d+)\.o(\d+)\.", tag)
+        return (int(m.group(1)), int(m.group(2))) if m else (None, None)
+
+    def obj(tag, msg):
+        img, op = where(tag)
+        logs = [l for l in out["logs"] if img is not None and (l.startswith("image %d:" % img) or l.startswith("image %d op %d " % (img, op)))]
+        return {"harness": "c05c", "mode": "C", "images": nimg, "variants": variants, "image": img, "op": op, "run": tag,
+                "run_line": out["runlines"].get(tag), "message": msg[:3000], "image_and_reads_of_the_operation": logs,
+                "fault": "the read named in run_line (index/total, tree it belongs to, n-th read of that page, byte class, damage) "
+                         "returned damaged bytes while the operation ran; storage healthy before and after",
+                "replay_cmd": "VERIF_SEED=%d ./check C05 --replay <this file>" % ctx.seed}
+
+    for v in out["viol"]:
+        m = re.match(r"(\S+): \[(after-error|after-internal-panic)\] (\w+)", v)
+        if not m:
+            ctx.violation("c05-corrupt-harness", "corrupted-read family: " + v[:1500], {"harness": "c05c", "mode": "C", "images": nimg, "variants": variants, "message": v[:3000]})
+            continue
+        tag, cls, opname = m.groups()
+        committed = "end=Commit:ok" in v
+        key = "%s:%s:%s" % ("c05-corrupt-half-applied-committed" if committed else "c05-corrupt-abandoned-state-differs", opname, cls)
+        what = ("an operation failed part-way because a read returned damaged bytes (%s), the transaction was committed anyway and "
+                "commit() returned Ok, but the committed state is not the state in which the failed operation did not happen: "
+                if committed else
+                "an operation failed part-way because a read returned damaged bytes (%s); after the abort / refused commit the "
+                "state is not the pre-transaction state: ") % ("Err(Corrupted)" if cls == "after-error" else "panic inside redb")
+        ctx.violation(key, what + v[:1500], obj(tag, v))
+    for label, what in out["s3fail"]:
+        tag = label.split(":", 1)[0]
+        rl = out["runlines"].get(tag, "")
+        mo = re.search(r" op=([A-Za-z]+)", rl)
+        opname = mo.group(1) if mo else "?"
+        cls = "after-internal-panic" if "res=panic" in rl else "after-error"
+        committed = "after_the_commit" in label
+        key = "%s:%s:%s" % ("c05-corrupt-half-applied-committed" if committed else "c05-corrupt-abandoned-state-differs", opname, cls)
+        ctx.violation(key, "page-ownership invariant (own_checkb, C06's proved checker) violated in state `%s` of the corrupted-read "
+                      "family: %s" % (label, what), obj(tag, "own_checkb: " + what))
+
+
 def run(ctx):
     ctx.proof_obligations()
     sizes = QUICK if ctx.quick else THOROUGH
     (n, steps), (nb, samples) = sizes["A"], sizes["B"]
-    extra_a, extra_b, do_a, do_b = (), (), True, True
+    nimg, variants = sizes["C"]
+    extra_a, extra_b, extra_c, do_a, do_b, do_c = (), (), (), True, True, True
     replay = getattr(ctx, "replay", None)
     if replay:
         rp = json.load(open(replay))
-        if rp.get("mode") == "B":
-            do_a = False
+        if rp.get("mode") == "C":
+            do_a = do_b = False
+            nimg, variants = rp.get("images", nimg), rp.get("variants", variants)
+            if rp.get("image") is not None:
+                extra_c = ("only", rp["image"]) + ((rp["op"],) if rp.get("op") is not None else ())
+        elif rp.get("mode") == "B":
+            do_a = do_c = False
             nb, samples = rp.get("bodies", nb), rp.get("samples", samples)
             if rp.get("body") is not None:
                 extra_b = ("only", rp["body"])
         else:
-            do_b = False
+            do_b = do_c = False
             n, steps = rp.get("histories", n), rp.get("steps", steps)
             if rp.get("history") is not None:
                 extra_a = ("only", rp["history"])
@@ -335,39 +439,77 @@ def run(ctx):
             cov["states_checked_by_own_checkb_after_reopen"] = b["states"]
             s2_diffs += [("B", l, w) for l, w in b["flags_bad"]]
             _report_b(ctx, nb, samples, b)
+    if do_c:
+        c = _mode_c(ctx, nimg, variants, extra_c)
+        if not c["ok"]:
+            s2_ok, detail = False, c["detail"]
+        else:
+            cov["evaluations"] += c["failed"]
+            cov["distinct_nontrivial"] += c["distinct"]
+            cov["corrupt_read_runs"] = c["runs"]
+            cov["corrupt_read_failed_calls"] = c["failed"]
+            cov["corrupt_read_failed_calls_judged"] = c["judged"]
+            cov["corrupt_read_commits_not_judged_because_damaged_bytes_may_have_been_absorbed"] = c["failed"] - c["judged"]
+            cov["corrupt_read_process_aborts_after_damaged_reads"] = c["aborts"]
+            cov["corrupt_read_states_checked_by_own_checkb"] = c["states"]
+            cov["corrupt_read_failed_calls_flag_checked"] = c["blocks"]
+            cov["corrupt_read_results_by_kind"] = {k[4:]: v for k, v in c["ops"].items() if k.startswith("res_")}
+            cov["corrupt_read_ends"] = {k[4:]: v for k, v in c["ops"].items() if k.startswith("end_")}
+            cov["corrupt_read_sites"] = {k[5:]: v for k, v in c["ops"].items() if k.startswith("site_")}
+            cov["corrupt_read_damaged_bytes"] = {k[5:]: v for k, v in c["ops"].items() if k.startswith("byte_")}
+            cov["traces_validated_against_impl"] = cov.get("traces_validated_against_impl", 0) + c["blocks"]
+            cov.setdefault("samples", [])
+            cov["samples"] = cov["samples"][:8] + c["samples"][:4]
+            s2_diffs += [("C", l, w) for l, w in c["flags_bad"]]
+            _report_c(ctx, nimg, variants, c)
     if s2_diffs and not ctx.violations and s2_ok:
         # model and implementation differ, but the property itself held on everything seen: directed search =
         # a larger budget of the same generators around the difference, looking for an S3 failure
         s2_ok = False
         detail = {"first_differences": s2_diffs[:6]}
-        if s2_diffs[0][0] == "A":
+        if s2_diffs[0][0] == "C":
+            # directed search around the difference: every damage variant of the operation concerned
+            m = re.match(r"i(\d+)\.o(\d+)\.", s2_diffs[0][1])
+            if m:
+                bigc = _mode_c(ctx, nimg, 0, ("only", int(m.group(1)), int(m.group(2))))
+                searched = "re-ran image %s operation %s with every damage variant" % (m.group(1), m.group(2))
+                if bigc["ok"]:
+                    searched += ": %d fault runs, %d direct failures" % (bigc["runs"], len(bigc["viol"]) + len(bigc["s3fail"]))
+                    _report_c(ctx, nimg, 0, bigc)
+        elif s2_diffs[0][0] == "A":
             h = own_common._hist_of(s2_diffs[0][1])[0]
             if h is None:
                 m = re.match(r"h(\d+)\.r", s2_diffs[0][1])
                 h = int(m.group(1)) if m else None
             if h is not None:
                 detail["api_calls"] = own_common._history_log(ctx, "c05", n, steps, h)[:150]
-        big = _mode_a(ctx, n * 3, steps + 10)
-        searched = "re-ran %d histories x %d steps" % (n * 3, steps + 10)
+        big = _mode_a(ctx, n * 3, steps + 10) if s2_diffs[0][0] != "C" else {"ok": False}
+        if s2_diffs[0][0] != "C":
+            searched = "re-ran %d histories x %d steps" % (n * 3, steps + 10)
         if big["ok"]:
             searched += ": %d own_checkb failures, %d model-S3 differences, %d direct failures" % (
                 len(big["s3fail"]), len(big["model_s3"]), len(big["rust"]))
             _report_a(ctx, n * 3, steps + 10, big)
-        bigb = _mode_b(ctx, nb * 2, samples * 2)
+        bigb = _mode_b(ctx, nb * 2, samples * 2) if s2_diffs[0][0] != "C" else {"ok": False}
         if bigb["ok"]:
             searched += "; %d fault runs: %d direct failures" % (bigb["runs"], len(bigb["viol"]) + len(bigb["s3fail"]))
             _report_b(ctx, nb * 2, samples * 2, bigb)
     cov["rule"] = ("one evaluation = one abandoned write transaction on the real crate (mode A: random preceding history, "
                    "random body, ended by abort / drop / commit of the poisoned transaction, incl. the scratch transactions "
                    "that probe savepoint validity by restore + abort; mode B: one run with the k-th backend call inside "
-                   "the transaction failing, then drop + reopen) with the full before/after comparison; "
+                   "the transaction failing, then drop + reopen; mode C: one operation that FAILED because one of its reads "
+                   "returned damaged bytes, followed by commit anyway / abort, in the session and after a reopen) with the "
+                   "full before/after comparison; "
                    "non-trivial = the body left uncommitted allocations, freed committed pages, staged savepoint "
                    "creations / deletions or a restore at the moment it was abandoned; distinct = distinct (end kind, "
                    "poisoned?, set of call kinds in the body, #pins, pending non-durable?, DATA_FREED / unpersisted "
-                   "records non-empty?, restored?) resp. (end kind, result, poisoned?, fail mode, set of failed calls)")
+                   "records non-empty?, restored?) resp. (end kind, result, poisoned?, fail mode, set of failed calls) resp. "
+                   "(operation, tree of the damaged page, result, truthful?, staged?, poisoned?, end, end result)")
     cov["trusted_base"] = ["Coq 8.16.1 kernel", "hook H3 (redb's own tree walkers, snapshot accessors)",
                            "harness/src/own_util.rs + bin/c05.rs (abstraction of snapshots to page-id sets; logical dump "
-                           "through the public read API; failing storage backend harness/src/backend.rs)",
+                           "through the public read API; failing storage backend harness/src/backend.rs; bin/c05c.rs: "
+                           "corrupting storage backend, page-layout parser choosing the damaged bytes, the truthful-partial-"
+                           "execution filter)",
                            "extraction (ExtrOcamlBasic) + ocaml/c06_driver.ml, ocaml/c05_driver.ml (parsing, set comparison)"]
     return ctx.finish("proof", cov, assumptions=[
         "b-tree page churn is an oracle in the model (see coq/Txn/Own.v header): a tree mutation is given by the page set "
@@ -376,7 +518,13 @@ def run(ctx):
         "validated per run on the real crate (full dump, scratch restore probes)",
         "a half-applied operation is modelled as an arbitrary working view + fresh allocations + frees of uncommitted "
         "pages (Abandon.v `half`); that redb never returns a committed page before commit is validated by S2/own_checkb",
-        "storage errors are I/O errors that latch the storage layer (a healthy file has no corruption errors); after a "
-        "latched failure only 'nothing is published' is proved, the reopen is validated per run (mode B)",
+        "storage errors are I/O errors that latch the storage layer, or logical Err(Corrupted) failures caused by a read "
+        "that returned damaged bytes (modelled: Poison.v ECorrupt, positions per call kind transcribed from the order of "
+        "reads and mutations in the code and compared per run); decoder panics on damaged bytes are not modelled (C12), "
+        "the harness only checks that no half-applied state gets committed after one",
+        "a commit after a failed call is judged only if nothing the transaction holds derives from the damaged bytes "
+        "(truthful partial execution, checked byte for byte against the fault-free run); otherwise it is counted, not judged",
+        "after a latched failure the reopen is proved at the granularity of C11's session model (the durable image is the "
+        "one before begin_write by construction of that model) and validated per run (mode B)",
         "each API call is one atomic model step (schedules: C03/C16)",
     ], s2_ok=s2_ok, s2_detail=detail, searched=searched)
